@@ -132,16 +132,9 @@ UNPARSEABLE = {"bogus", "10.1.2"}
 
 def _config(enabled, ai, di, default_allow, pi, rate):
     # (contract on the partitioned wrappers)
-    cfg = ServerConfig.__new__(ServerConfig)
-    for k, v in dict(host="localhost", port=1965, document_root=_root(), certfile=None, keyfile=None,
-                     enable_rate_limiting=rate, rate_limit_capacity=10, rate_limit_refill_rate=1.0,
-                     rate_limit_retry_after=30, enable_access_control=enabled,
-                     access_control_allow_list=ALLOW[ai], access_control_deny_list=DENY[di],
-                     access_control_default_allow=default_allow, max_file_size=1000, certificate_auth_paths=None,
-                     require_client_cert=False, hash_client_ips=True, enable_titan=False, titan_upload_dir=None,
-                     titan_max_upload_size=10, titan_allowed_mime_types=None, titan_auth_tokens=None,
-                     titan_enable_delete=False, locations=None).items():
-        setattr(cfg, k, v)
+    cfg = ServerConfig(host="localhost", port=1965, document_root=_root(), enable_rate_limiting=rate,
+                       enable_access_control=enabled, access_control_allow_list=ALLOW[ai],
+                       access_control_deny_list=DENY[di], access_control_default_allow=default_allow)
     bad_entry = ai >= 4 or di >= 4
     try:
         cap = capture(cfg, enable_rate_limiting=cfg.enable_rate_limiting,
